@@ -1,7 +1,119 @@
 import Driver.Proto
-/- driver commands of area `crash` (stub until the area is built) -/
-namespace Driver.Crash
+import MesonModel.Crash.Model
+/-
+driver commands of area `crash` (C09)
 
-def handle (cmd : String) (fs : List String) : String := "bad-op"
+  crash <cmd>|<init>|<effects>|<k>|<mode>   state after a kill at effect k (mode b = before, t = inside) + recovery verdict
+  scan  <cmd>|<init>|<effects>              number of crash states and the unacceptable ones
+
+  <cmd>      setup | reconfigure | wipe | configure
+  <init>     `;`-separated  id:st      st = a (absent) | d (dir) | t (torn) | o0 | o1 | o2 (ok older/old/new)
+  <effects>  `;`-separated  ow:p oa:p w:p fl:p fs:p cl:p:g rp:s:d cp:s:d ul:p rd:p mk:p ot:p
+-/
+namespace Driver.Crash
+open MesonModel.Crash
+
+def parseGen (s : String) : Option Gen :=
+  match s with
+  | "0" => some .older
+  | "1" => some .old
+  | "2" => some .new
+  | _ => none
+
+def showGen : Gen → String
+  | .older => "0"
+  | .old => "1"
+  | .new => "2"
+
+def parseSt (s : String) : Option (FileSt Gen) :=
+  match s with
+  | "a" => some .absent
+  | "d" => some .dir
+  | "t" => some .torn
+  | "o0" => some (.ok .older)
+  | "o1" => some (.ok .old)
+  | "o2" => some (.ok .new)
+  | _ => none
+
+def showSt : FileSt Gen → String
+  | .absent => "a"
+  | .dir => "d"
+  | .torn => "t"
+  | .ok g => "o" ++ showGen g
+
+def parseInit (f : String) : Option (List (Path × FileSt Gen)) :=
+  if f.trimAscii.isEmpty then some [] else
+  (f.splitOn ";").mapM (fun item =>
+    match item.splitOn ":" with
+    | [p, st] => do
+      let p ← p.toNat?
+      let st ← parseSt st
+      pure (p, st)
+    | _ => none)
+
+def parseEffect (item : String) : Option (Effect Gen) :=
+  match item.splitOn ":" with
+  | ["ow", p] => p.toNat?.map .openW
+  | ["oa", p] => p.toNat?.map .openA
+  | ["w", p] => p.toNat?.map .write
+  | ["fl", p] => p.toNat?.map .flush
+  | ["fs", p] => p.toNat?.map .fsync
+  | ["cl", p, g] => do
+    let p ← p.toNat?
+    let g ← parseGen g
+    pure (.close p g)
+  | ["rp", s, d] => do
+    let s ← s.toNat?
+    let d ← d.toNat?
+    pure (.replace s d)
+  | ["cp", s, d] => do
+    let s ← s.toNat?
+    let d ← d.toNat?
+    pure (.copyfile s d)
+  | ["ul", p] => p.toNat?.map .unlink
+  | ["rd", p] => p.toNat?.map .rmdir
+  | ["mk", p] => p.toNat?.map .mkdir
+  | ["ot", p] => p.toNat?.map .other
+  | _ => none
+
+def parseEffects (f : String) : Option (List (Effect Gen)) :=
+  if f.trimAscii.isEmpty then some [] else (f.splitOn ";").mapM parseEffect
+
+def parseCmd (s : String) : Option Cmd :=
+  match s with
+  | "setup" => some .setup
+  | "reconfigure" => some .reconfigure
+  | "wipe" => some .wipe
+  | "configure" => some .configure
+  | _ => none
+
+def showVerdict : Verdict Gen → String
+  | .usable (.coredata g) => "usable:cd:" ++ showGen g
+  | .usable (.cmdline g) => "usable:cl:" ++ showGen g
+  | .usable .fresh => "usable:fresh"
+  | .rejectedCleanly => "rejected"
+  | .internalError => "internal"
+
+def statePaths : List Path := [0, 1, 2, 3, 4, 5, 6, 7]
+
+def handle (cmd : String) (fs : List String) : String :=
+  match cmd, fs with
+  | "crash", [c, ini, effs, k, mode] =>
+    match parseCmd c, parseInit ini, parseEffects effs, k.toNat? with
+    | some c, some ini, some effs, some k =>
+      let s := crashAt (FS.ofList ini) effs k (mode == "t")
+      let v := recover s
+      showVerdict v ++ "|" ++ ",".intercalate (statePaths.map (fun p => showSt (s p)))
+        ++ "|" ++ boolStr (acceptable c v) ++ "|" ++ boolStr (needsReconfigure s)
+    | _, _, _, _ => "bad-args"
+  | "scan", [c, ini, effs] =>
+    match parseCmd c, parseInit ini, parseEffects effs with
+    | some c, some ini, some effs =>
+      let sc : Scenario := { name := "", cmd := c, init := ini, trace := effs }
+      let bad := badPoints sc
+      toString (crashStates sc.fs0 effs).length ++ "|" ++
+        ";".intercalate (bad.map (fun (i, v) => toString i ++ ":" ++ showVerdict v))
+    | _, _, _ => "bad-args"
+  | _, _ => "bad-op"
 
 end Driver.Crash
